@@ -1,6 +1,6 @@
 //! The template group for cross references
 
-use std::collections::HashMap;
+use std::collections::BTreeMap;
 use std::fmt;
 use std::fmt::Write;
 
@@ -176,8 +176,8 @@ impl std::error::Error for TmplError {}
 /// A template group in which the templates can ref each other.
 #[derive(Debug)]
 pub struct TmplGroup {
-    trees: HashMap<String, Template>,
-    scripts: HashMap<String, String>,
+    trees: BTreeMap<String, Template>,
+    scripts: BTreeMap<String, String>,
     has_scripts: bool,
     extra_runtime_string: String,
     dev_mode: bool,
@@ -187,8 +187,8 @@ impl TmplGroup {
     /// Create a new template group.
     pub fn new() -> Self {
         Self {
-            trees: HashMap::new(),
-            scripts: HashMap::new(),
+            trees: BTreeMap::new(),
+            scripts: BTreeMap::new(),
             has_scripts: false,
             extra_runtime_string: String::new(),
             dev_mode: false,
